@@ -6,7 +6,12 @@ import (
 	"encoding/json"
 	"errors"
 	"math/big"
+	"os"
 	"strconv"
+
+	"github.com/Oneledger/protocol/data/evm"
+	"github.com/Oneledger/protocol/log"
+	"github.com/Oneledger/protocol/vm"
 
 	"github.com/Oneledger/protocol/action"
 	"github.com/Oneledger/protocol/action/olvm"
@@ -47,12 +52,12 @@ func svPrograms() []svProgram {
 	suicide := append(append([]byte{0x73}, svBeneficiary...), 0xff) // PUSH20 beneficiary; SELFDESTRUCT
 	return []svProgram{
 		{"stop", []byte{0x00}},
-		{"revert", []byte{0x60, 0x00, 0x60, 0x00, 0xfd}},            // PUSH1 0 PUSH1 0 REVERT
-		{"invalid", []byte{0xfe}},                                   // INVALID: all gas consumed
-		{"store", []byte{0x60, 0x01, 0x60, 0x00, 0x55, 0x00}},       // SSTORE(0,1); STOP
-		{"selfdestruct", suicide},                                   //
-		{"log", []byte{0x60, 0x00, 0x60, 0x00, 0xa0, 0x00}},         // LOG0(0,0); STOP
-		{"clear", []byte{0x60, 0x00, 0x60, 0x00, 0x55, 0x00}},       // SSTORE(0,0) (refund when the slot was set); STOP
+		{"revert", []byte{0x60, 0x00, 0x60, 0x00, 0xfd}},      // PUSH1 0 PUSH1 0 REVERT
+		{"invalid", []byte{0xfe}},                             // INVALID: all gas consumed
+		{"store", []byte{0x60, 0x01, 0x60, 0x00, 0x55, 0x00}}, // SSTORE(0,1); STOP
+		{"selfdestruct", suicide},                             //
+		{"log", []byte{0x60, 0x00, 0x60, 0x00, 0xa0, 0x00}},   // LOG0(0,0); STOP
+		{"clear", []byte{0x60, 0x00, 0x60, 0x00, 0x55, 0x00}}, // SSTORE(0,0) (refund when the slot was set); STOP
 	}
 }
 
@@ -268,9 +273,16 @@ func (e *svEnv) nonceOf(addr keys.Address) uint64 {
 	return e.app.Context.accountKeeper.WithState(e.app.Context.deliver).GetNonce(addr)
 }
 
-// evmView reads an address's balance through the EVM state adapter.
+// evmView reads an address's balance through the EVM state adapter the way an
+// RPC query does: a fresh CommitStateDB over the same stores (the node's own
+// adapter object is only read inside OLVM transactions; reading it here would
+// leave cached objects behind that no real caller leaves).
 func (e *svEnv) evmView(addr keys.Address) *big.Int {
-	return e.app.Context.stateDB.WithState(e.app.Context.deliver).GetBalance(ethcmn.BytesToAddress(addr))
+	ctx := &e.app.Context
+	st := ctx.deliver
+	sdb := vm.NewCommitStateDB(evm.NewContractStore(st),
+		balance.NewNesterAccountKeeper(st, balance.NewStore("b", st), ctx.currencies), log.NewLoggerWithPrefix(os.Stdout, "svview"))
+	return sdb.GetBalance(ethcmn.BytesToAddress(addr))
 }
 
 // SV_C17_olvm_step: one OLVM transaction through the real txDeliverer.
@@ -348,4 +360,102 @@ func SV_C17_olvm_step() {
 	sv.Assert(n1 == n0+1, "nonce-rises-by-exactly-one")
 	sv.Cover(status == "1", "executed-ok:"+t.to)
 	sv.Cover(status == "0", "executed-reverted:"+t.to)
+}
+
+// SV_C17_two_step: two OLVM transfers from the same sender in one block, both
+// admitted by Validate against the committed state (the mempool reserves
+// nothing, so the second may no longer be payable when it is delivered), then
+// a native SEND.
+//
+// sv:bounds sender A (account nonce 0 or 1), recipient B; two OLVM transfers with nonces n and n+1, arbitrary amounts, gas limits and gas prices, both admitted against the state before the block; delivered in order, then a third OLVM transfer with the then-current nonce (admitted against the state before the block as well), then a native SEND from B to A of an arbitrary amount; balances symbolic in [0,2^128)
+// sv:outside contract targets in the sequence (SV_C17_olvm_step), more than two OLVM transactions, other interleavings
+// sv:goal after every transaction A's and B's OLT balances read through the EVM equal the native ones; each executed OLVM transaction debits exactly gas used x price + amount from A, credits the fee pool and B exactly, raises the nonce by one; a refused one changes no balance and no nonce; the native SEND moves exactly its amount and the EVM view follows it
+func SV_C17_two_step() {
+	svCurrencyLimit = 1
+	svUseEthParties()
+	pre := &svOLVMPre{}
+	e := svNewEnv(2, 20, func(e *svEnv) {
+		ctx := &e.app.Context
+		ctx.stateDB.SetBlockHash(ethcmn.BytesToHash([]byte{1}))
+		pre.nonce0 = uint64(sv.Choice("olvm.senderNonce", 2))
+		pre.program = -1
+		if pre.nonce0 > 0 {
+			k := ctx.accountKeeper.WithState(ctx.deliver)
+			acc, err := k.NewAccountWithAddress(svParty_(0).Addr)
+			if err != nil {
+				sv.Unreachable("keeper account")
+			}
+			acc.Sequence = pre.nonce0
+			if err := k.SetAccount(*acc); err != nil {
+				sv.Unreachable("keeper set")
+			}
+		}
+	})
+	sv.Assume(e.ledger().get("b:A:OLT").Cmp(svTwo128) < 0 && e.ledger().get("b:B:OLT").Cmp(svTwo128) < 0)
+	to := svParty_(1).Addr
+	mk := func(tag string, nonce uint64) action.SignedTx {
+		msg := &olvm.Transaction{Nonce: nonce, From: svParty_(0).Addr, To: &to,
+			Amount:  action.Amount{Currency: "OLT", Value: *balance.NewAmountFromBigInt(sv.BigInt(tag + ".amount"))},
+			ChainID: utils.HashToBigInt(svHeader(0).ChainID)}
+		data, err := msg.Marshal()
+		if err != nil {
+			sv.Unreachable("marshal")
+		}
+		raw := action.RawTx{Type: action.OLVM, Data: data, Memo: strconv.FormatUint(nonce, 10),
+			Fee: action.Fee{Price: action.Amount{Currency: "OLT", Value: *balance.NewAmountFromBigInt(sv.BigInt(tag + ".price"))}, Gas: sv.Int64(tag + ".gas")}}
+		return svSignOLVM(raw, 0)
+	}
+	tx1, tx2 := mk("tx1", pre.nonce0), mk("tx2", pre.nonce0+1)
+	sv.Assume(e.validate(tx1))
+	sv.Assume(e.validate(tx2))
+	agree := func() {
+		l := e.ledger()
+		sv.Assert(e.evmView(svParty_(0).Addr).Cmp(l.get("b:A:OLT")) == 0 && e.evmView(svParty_(1).Addr).Cmp(l.get("b:B:OLT")) == 0, "evm-and-native-balance-agree")
+	}
+	deliver := func(tag string, tx action.SignedTx) {
+		l0, n0 := e.ledger(), e.nonceOf(svParty_(0).Addr)
+		resp := svDeliver(e.app, tx)
+		l1, n1 := e.ledger(), e.nonceOf(svParty_(0).Addr)
+		sv.Observe(tag+".code", resp.Code)
+		sv.Observe(tag+".A", l1.get("b:A:OLT"))
+		agree()
+		if resp.Code != 0 {
+			for k, c := range l1.cells {
+				sv.Assert(c.V.Cmp(l0.cells[k].V) == 0, "refused-olvm-tx-changes-no-balance")
+			}
+			sv.Assert(n1 == n0, "refused-olvm-tx-keeps-the-nonce")
+			sv.Cover(tag == "tx2", "second-transfer-refused-at-delivery")
+			return
+		}
+		m := &olvm.Transaction{}
+		m.Unmarshal(tx.Data)
+		fee := new(big.Int).Mul(big.NewInt(resp.GasUsed), tx.Fee.Price.Value.BigInt())
+		moved := new(big.Int)
+		if svOLVMStatus(resp) == "1" {
+			moved.Set(m.Amount.Value.BigInt())
+		}
+		wantA := new(big.Int).Sub(new(big.Int).Sub(l0.get("b:A:OLT"), fee), moved)
+		sv.Assert(l1.get("b:A:OLT").Cmp(wantA) == 0, "sender-pays-exactly-gas-and-value")
+		sv.Assert(l1.get("b:B:OLT").Cmp(new(big.Int).Add(l0.get("b:B:OLT"), moved)) == 0, "recipient-receives-exactly-the-value")
+		sv.Assert(l1.get("f:pool").Cmp(new(big.Int).Add(l0.get("f:pool"), fee)) == 0, "fee-pool-receives-exactly-the-gas")
+		sv.Assert(n1 == n0+1, "nonce-rises-by-exactly-one")
+		sv.Cover(tag == "tx2", "second-transfer-executed")
+	}
+	deliver("tx1", tx1)
+	deliver("tx2", tx2)
+	// a third transfer, built for whatever the account nonce is now: its
+	// accounting shows what the adapter kept from the two before
+	tx3 := mk("tx3", e.nonceOf(svParty_(0).Addr))
+	sv.Assume(e.validate(tx3))
+	deliver("tx3", tx3)
+	// a native transfer back: the EVM view must follow the native ledger
+	amt := svNonNeg("send.amount")
+	bal := e.app.Context.balances.WithState(e.app.Context.deliver)
+	c := svOLT.NewCoinFromAmount(*balance.NewAmountFromBigInt(amt))
+	if err := bal.MinusFromAddress(svParty_(1).Addr, c); err == nil {
+		if err := bal.AddToAddress(svParty_(0).Addr, c); err != nil {
+			sv.Unreachable("native credit")
+		}
+	}
+	agree()
 }
